@@ -319,7 +319,29 @@ def r8(tree, rep, tier):
                   detail=("nearest stuck states: %s" % (s.stuck,)) if s.stuck else None)
 
 
+def _import_rule(rep, fn, args, src, dst, keep, why):
+    """re-use rule instances of a neighbouring property (same lemma, stated for this property's clause)"""
+    sub = type(rep)(rep.pid, rep.tier, rep.seed)
+    try:
+        fn(*(args + (sub,)))
+    except AnalysisError:
+        if not sub.violations:
+            raise
+    for o in sub.obligations:
+        if o["rule"] == src and keep(o.get("key") or o["instance"]):
+            rep.obligations.append(dict(o, rule=dst))
+            rep.evaluations += 1
+    for v in sub.violations:
+        if v["rule"] == src and keep(v["key"]):
+            rep.violation(dst, v["key"].replace(src, dst), v["what"] + why, v.get("site"), v.get("detail"), _count=False)
+
+
 def run(tree, rep, tier):
+    # convergence needs the one connection attempt the network lets through to survive the prologue exchange under ANY segmentation of
+    # the byte stream (the prologue ends in two newlines: a cut between them is legal) - the rule instances are C12.R4's for _get_expected
+    from .C12 import r4 as c12_r4
+    _import_rule(rep, c12_r4, (tree,), "C12.R4", "C11.R9", lambda k: "_get_expected" in k,
+                 " (the only connection of this generation is dropped on a valid prologue and nobody retries: both sides stay CONNECTING)")
     prog = r1(tree, rep)
     r2(tree, prog, rep)
     r3(tree, prog, rep)
